@@ -40,7 +40,41 @@ def solve_assert(aass, apc, af, timeout):
         r_, s_, dt_ = solve(list(aass) + list(apc) + [z3.Not(af)], timeout)
     if r_ == z3.unknown:
         r_, s_, dt_ = solve(list(aass) + list(apc) + generic_instances([B(a_) for a_ in aass], [c_ for c_ in _consts(af)]) + [z3.Not(af)], 3 * timeout)
+    if r_ == z3.unknown:
+        # model-based quantifier instantiation finds instances E-matching has no trigger for (terms under the lambdas of the
+        # deepcopy model); tried on the hypotheses that share a heap array with the goal, then on all of them.  An `unsat`
+        # is sound whichever strategy produced it and whichever hypotheses were left out.
+        goal_arrays = _array_syms(af)
+        related = [a_ for a_ in aass if not _array_syms(B(a_)) or (_array_syms(B(a_)) & goal_arrays)]
+        for hyps in (related, list(aass)):
+            s2 = z3.Solver()
+            s2.set("timeout", 2 * timeout)
+            for f in list(hyps) + list(apc) + [z3.Not(af)]:
+                s2.add(B(f))
+            t2 = time.time()
+            r2 = s2.check()
+            dt_ += time.time() - t2
+            if r2 == z3.unsat:
+                return r2, s2, dt_
     return r_, s_, dt_
+
+
+def _array_syms(f):
+    """names of the uninterpreted array constants (heap arrays, ghost sets) occurring in f"""
+    out, seen, stack = set(), set(), [f]
+    while stack:
+        e = stack.pop()
+        if e.get_id() in seen:
+            continue
+        seen.add(e.get_id())
+        if z3.is_quantifier(e):
+            stack.append(e.body())
+            continue
+        if z3.is_app(e):
+            if e.num_args() == 0 and e.decl().kind() == z3.Z3_OP_UNINTERPRETED and z3.is_array(e):
+                out.add(str(e))
+            stack.extend(e.children())
+    return out
 
 
 def _qf(f):
@@ -426,13 +460,20 @@ def flush(obs, pending, pre, instances, base, i, kind, p, sym, raised, timeout):
                 break
         if r == z3.unknown:
             # a VC that is not valid usually ends `unknown` under E-matching; model-based instantiation may find the model
-            solver = z3.Solver()
-            solver.set("timeout", min(timeout, 6000))
-            solver.add(*hyp)
+            goal_arrays = set()
             for f in fs:
-                solver.add(B(f))
-            if solver.check() == z3.sat:
-                r = z3.sat
+                goal_arrays |= _array_syms(B(f))
+            related = [f for f in hyp if not _array_syms(f) or (_array_syms(f) & goal_arrays)]
+            for hs, allow_sat in ((related, False), (hyp, True)):
+                solver = z3.Solver()
+                solver.set("timeout", min(timeout, 6000) if allow_sat else timeout)
+                solver.add(*hs)
+                for f in fs:
+                    solver.add(B(f))
+                rm = solver.check()
+                if rm == z3.unsat or (rm == z3.sat and allow_sat):
+                    r = rm  # unsat: proved by model-based instantiation (sound whichever strategy / subset of hypotheses)
+                    break
         dt = time.time() - t
         if r == z3.unsat:
             obs.append(Ob(name, kind, DISCHARGED, "z3", dt, evaluations=1 if kind == "bounded" else 0))
